@@ -42,6 +42,8 @@ pub enum Call {
 	/// name, advertised len, fields
 	Struct(String, Vec<(String, Call)>),
 	StructVariant(String, Vec<(String, Call)>),
+	/// as a struct field value: call `skip_field(key)` instead of `serialize_field`
+	SkipField,
 }
 
 impl Call {
@@ -80,6 +82,7 @@ impl Call {
 			Call::Map(_, _, true) => "map_split",
 			Call::Struct(..) => "struct",
 			Call::StructVariant(..) => "struct_variant",
+			Call::SkipField => "skip_field",
 		}
 	}
 	/// integer value if this is an integer call
@@ -111,8 +114,8 @@ impl Call {
 	}
 	pub fn short(&self) -> String {
 		let s = format!("{self:?}");
-		if s.len() > 300 {
-			format!("{}..", &s[..300])
+		if s.chars().count() > 300 {
+			format!("{}..", s.chars().take(300).collect::<String>())
 		} else {
 			s
 		}
@@ -122,6 +125,7 @@ impl Call {
 impl Serialize for Call {
 	fn serialize<S: Serializer>(&self, ser: S) -> Result<S::Ok, S::Error> {
 		match self {
+			Call::SkipField => ser.serialize_unit(),
 			Call::Bool(v) => ser.serialize_bool(*v),
 			Call::I8(v) => ser.serialize_i8(*v),
 			Call::I16(v) => ser.serialize_i16(*v),
@@ -186,16 +190,24 @@ impl Serialize for Call {
 				m.end()
 			}
 			Call::Struct(n, fs) => {
-				let mut s = ser.serialize_struct(intern(n), fs.len())?;
+				let mut s = ser.serialize_struct(intern(n), fs.iter().filter(|f| f.1 != Call::SkipField).count())?;
 				for (k, v) in fs {
-					s.serialize_field(intern(k), v)?;
+					if *v == Call::SkipField {
+						s.skip_field(intern(k))?;
+					} else {
+						s.serialize_field(intern(k), v)?;
+					}
 				}
 				s.end()
 			}
 			Call::StructVariant(v, fs) => {
-				let mut s = ser.serialize_struct_variant("Enum", 0, intern(v), fs.len())?;
+				let mut s = ser.serialize_struct_variant("Enum", 0, intern(v), fs.iter().filter(|f| f.1 != Call::SkipField).count())?;
 				for (k, x) in fs {
-					s.serialize_field(intern(k), x)?;
+					if *x == Call::SkipField {
+						s.skip_field(intern(k))?;
+					} else {
+						s.serialize_field(intern(k), x)?;
+					}
 				}
 				s.end()
 			}
